@@ -138,7 +138,17 @@ def run(chk):
         except Exception as e:  # noqa: BLE001
             err = f"{type(e).__name__}: {e}"
         chk.case(name)
-        chk.ob(f"quote/node/{name}", err is None, "structural", "proved" if n <= 2 else "arity_bounded", detail=err)
+        rp = None
+        if err is not None:
+            # replay through the whole pipeline with literal children: (quote NODE) compiled and evaluated by hy.eval
+            try:
+                lit = mk([Integer(i + 1) for i in range(n)])
+                e2e = same_node(lit, hy.eval(Expression([Symbol("quote"), lit]), module=types.ModuleType("hv_c30r")))
+                rp = {"confirmed": e2e is not None, "input": f"(hy.eval (hy.models.Expression [(hy.models.Symbol \"quote\") {hy.repr(lit)}]))",
+                      "observed": e2e, "expected": "a model equal to the quoted one, attributes included"}
+            except Exception as e:  # noqa: BLE001
+                rp = {"confirmed": False, "error": f"{type(e).__name__}: {e}"[:200]}
+        chk.ob(f"quote/node/{name}", err is None, "structural", "proved" if n <= 2 else "arity_bounded", detail=err, replay=rp)
     for leaf in LEAVES:
         try:
             rendered, splice = rm.render_quoted_form(comp, leaf, INF)
@@ -147,7 +157,16 @@ def run(chk):
         except Exception as e:  # noqa: BLE001
             err = f"{type(e).__name__}: {e}"
         chk.case(repr(leaf))
-        chk.ob(f"quote/leaf/{type(leaf).__name__}/{leaf!r}"[:120], err is None, "structural", "bounded", detail=err)
+        rp = None
+        if err is not None:
+            # replay through the whole pipeline: (quote LEAF) compiled and evaluated by hy.eval
+            try:
+                e2e = same_node(leaf, hy.eval(Expression([Symbol("quote"), leaf]), module=types.ModuleType("hv_c30r")))
+            except Exception as e:  # noqa: BLE001
+                e2e = f"{type(e).__name__}: {e}"
+            rp = {"confirmed": e2e is not None, "input": f"(hy.eval (hy.models.Expression [(hy.models.Symbol \"quote\") {hy.repr(leaf)}]))",
+                  "observed": e2e, "expected": "a model equal to the quoted one, attributes included"}
+        chk.ob(f"quote/leaf/{type(leaf).__name__}/{leaf!r}"[:120], err is None, "structural", "bounded", detail=err, replay=rp)
     # attribute completeness: every _extra_kwargs attribute of every Sequence subclass is exercised above
     classes = [c for c in vars(hm).values() if isinstance(c, type) and issubclass(c, hm.Sequence)]
     extra = {c.__name__: c._extra_kwargs for c in classes if c._extra_kwargs}
